@@ -491,6 +491,12 @@ func runBlock(c BlockCase) (res common.Result) {
 			res.Fail = common.Failf("false-alarm", "clean history: report %v carries Err=%v", r.Range, r.Err)
 			return
 		}
+		if prev != nil && dropsBetween == 0 && !truncated && r.SkippedRange != nil {
+			// nothing was dropped between two consecutive delivered reports of an untruncated log:
+			// a skipped range here names entries that were in fact reported
+			res.Fail = common.Failf("skipped-range-without-drop", "report %v follows %v directly (no checkpoint dropped in between, dropped_reports=%d) yet names SkippedRange=%v", r.Range, prev.Range, s["dropped_reports"], *r.SkippedRange)
+			return
+		}
 		if prev != nil && dropsBetween > 0 {
 			afterDrop = true
 			want := verifier.LogRange{Start: prev.Range.End, End: r.Range.Start}
